@@ -1,14 +1,17 @@
 //! Property-based verification harness for saveoursecrets/sdk.
 pub mod framework;
+pub mod alloc_count;
+pub mod engine_codec;
 pub mod engine_acct;
 pub mod prop_c08;
 pub mod prop_c08_scan;
 pub mod prop_c10;
+pub mod prop_c14;
 
 use framework::PropertyDef;
 
 pub fn registry() -> Vec<PropertyDef> {
-    vec![prop_c08::def(), prop_c10::def()]
+    vec![prop_c08::def(), prop_c10::def(), prop_c14::def()]
 }
 
 /// Internal process sub-modes used by engines (crash children, decoder workers).
